@@ -1,6 +1,7 @@
 import LalModel.Proof.GroupFlv
 import LalModel.Proof.GopRing
 import LalModel.Proof.GroupKey
+import LalModel.Proof.TsGopRing
 /-
   C02 — Every consumer starts decodable: headers, then a key frame, bounded GOP replay.
   Property theorems for the RTMP / HTTP-FLV / WS-FLV consumers of the group model (`Group.run`,
@@ -122,6 +123,21 @@ theorem cached_gops_start_with_key_frame (cfg : Cfg) (evs : List Ev) :
         simp only [List.flatten_cons, List.cons_append, List.head?_cons, Option.some.injEq] at hx hh
         exact ⟨m, hk, by rw [← hx, hh]⟩
   exact ⟨hr, hf, first _ _ hr, first _ _ hf⟩
+
+/-- HTTP-TS consumers: the GOP cache of `remux.GopCacheMpegts` (modelled with its Go index expressions; every index is
+    in range, C05 `gopcache_mpegts_total`) is, after ANY history of frames and `Clear()` calls from a new cache, exactly
+    the queue of the last `gopNum` GOPs — each the frames since its boundary, at most `cap` of them (0 = unbounded),
+    in order — and it is empty after `Clear()`: the replay a late HTTP-TS consumer gets is exact and starts at a GOP
+    boundary. (`gopts.run` ties the model and this specification to the real type on every run.) -/
+theorem ts_gop_cache_is_queue (gopNum cap : Nat) (evs : List GopRing.TsEv) :
+    ∃ r, GopRing.tsRun (GopRing.Ring.new gopNum cap) evs = .ok r ∧ r.WF ∧
+      GopRing.tsGops r = evs.foldl (GopRing.tsSpec gopNum cap) [] := by
+  obtain ⟨r, e, w, g⟩ := GopRing.tsRun_refines gopNum cap evs (GopRing.Ring.new gopNum cap) (GopRing.Ring.new_wf gopNum cap) rfl rfl
+  exact ⟨r, e, w, by rw [g, GopRing.ts_new_empty]⟩
+
+/-- non-vacuity: two GOPs, the ring wraps, the oldest is dropped -/
+example : (GopRing.tsRun (GopRing.Ring.new 1 0) [.feed [1] true, .feed [2] false, .feed [3] true, .feed [4] false]).toOption.map GopRing.tsGops
+    = some [[[3], [4]]] := by decide
 
 /-- non-vacuity: after a key frame the RTMP cache of a caching configuration holds a GOP -/
 example : (GopCache.gops (run { rtmpCache := true, rtmpGopNum := 1 } [.addPub, .msg ⟨9, 0, [0x17, 1, 0, 0, 0, 9]⟩]).rtmpGop).length = 1 := by
